@@ -711,8 +711,15 @@ namespace awkward {
         }
         if (dtype == util::dtype::datetime64) {
           time_t time = (int64_t)(kernel::NumpyArray_getitem_at0(ptr_lib, ptr2) * scale);
-          strftime(outbuf, 30, "%Y-%m-%dT%H:%M:%S", gmtime(&time));
-          out << outbuf;
+          struct tm* broken_down = gmtime(&time);
+          if (broken_down == nullptr) {
+            // NaT and instants outside the calendar's range
+            out << "NaT";
+          }
+          else {
+            strftime(outbuf, 30, "%Y-%m-%dT%H:%M:%S", broken_down);
+            out << outbuf;
+          }
         }
         else if (dtype == util::dtype::timedelta64) {
           out << (int64_t)kernel::NumpyArray_getitem_at0(ptr_lib, ptr2);
@@ -732,8 +739,15 @@ namespace awkward {
         }
         if (dtype == util::dtype::datetime64) {
           time_t time = (int64_t)(kernel::NumpyArray_getitem_at0(ptr_lib, ptr2) * scale);
-          strftime(outbuf, 30, "%Y-%m-%dT%H:%M:%S", gmtime(&time));
-          out << outbuf;
+          struct tm* broken_down = gmtime(&time);
+          if (broken_down == nullptr) {
+            // NaT and instants outside the calendar's range
+            out << "NaT";
+          }
+          else {
+            strftime(outbuf, 30, "%Y-%m-%dT%H:%M:%S", broken_down);
+            out << outbuf;
+          }
         }
         else if (dtype == util::dtype::timedelta64) {
           out << (int64_t)kernel::NumpyArray_getitem_at0(ptr_lib, ptr2);
@@ -752,8 +766,15 @@ namespace awkward {
         }
         if (dtype == util::dtype::datetime64) {
           time_t time = (int64_t)(kernel::NumpyArray_getitem_at0(ptr_lib, ptr2) * scale);
-          strftime(outbuf, 30, "%Y-%m-%dT%H:%M:%S", gmtime(&time));
-          out << outbuf;
+          struct tm* broken_down = gmtime(&time);
+          if (broken_down == nullptr) {
+            // NaT and instants outside the calendar's range
+            out << "NaT";
+          }
+          else {
+            strftime(outbuf, 30, "%Y-%m-%dT%H:%M:%S", broken_down);
+            out << outbuf;
+          }
         }
         else if (dtype == util::dtype::timedelta64) {
           out << (int64_t)kernel::NumpyArray_getitem_at0(ptr_lib, ptr2);
